@@ -265,6 +265,20 @@ func (c *Cluster) AllLogs() []*LoggedReq {
 
 var ErrRefused = errors.New("vnode: connection refused")
 
+// SetRefuse changes RefuseDial while sessions are dialling.
+func (n *Node) SetRefuse(mode string) {
+	n.mu.Lock()
+	n.RefuseDial = mode
+	n.mu.Unlock()
+}
+
+// Dials is the number of dial attempts made to addr ("ip:port") so far.
+func (c *Cluster) Dials(addr string) int {
+	c.mu.Lock()
+	defer c.mu.Unlock()
+	return c.dials[addr]
+}
+
 // DialContext implements gocql.Dialer.
 func (c *Cluster) DialContext(ctx context.Context, network, addr string) (net.Conn, error) {
 	c.mu.Lock()
@@ -276,7 +290,10 @@ func (c *Cluster) DialContext(ctx context.Context, network, addr string) (net.Co
 	if n == nil {
 		return nil, fmt.Errorf("vnode: no node at %s: %w", addr, ErrRefused)
 	}
-	switch n.RefuseDial {
+	n.mu.Lock()
+	refuse := n.RefuseDial
+	n.mu.Unlock()
+	switch refuse {
 	case "refuse":
 		return nil, ErrRefused
 	case "stall":
